@@ -181,12 +181,30 @@ func (w *Worker) Open(ctx context.Context) (err error) {
 	for task := range w.FirstTask.Tasks() {
 		err = task.Open(ctx)
 		if err != nil {
+			// The task may hold something although it did not open: a
+			// processor is reserved (marked running) from the moment it is
+			// built, and only its teardown releases it - otherwise every
+			// later Start fails with "processor already running".
+			if closeErr := task.Close(ctx); closeErr != nil {
+				w.logger.Warn(ctx).Err(closeErr).Str("task_id", task.ID()).Msg("could not close task that failed to open")
+			}
 			return cerrors.Errorf("task %s failed to open: %w", task.ID(), err)
 		}
 
 		r.Append(func() error {
 			return task.Close(ctx)
 		})
+		if task == w.FirstTask.Task {
+			// SourceTask.Close does not tear the source connector down, the
+			// worker does (see tearDownSource, called from Stop and Close).
+			// Neither runs when Open itself fails further down (a processor
+			// or the DLQ cannot be opened): without this the source stayed
+			// open, kept reading, and every later Start of the pipeline was
+			// refused with "connector is running".
+			r.Append(func() error {
+				return w.tearDownSource(ctx)
+			})
+		}
 	}
 
 	err = w.DLQ.Open(ctx)
